@@ -174,7 +174,7 @@ def d3(ctx, F, top):
               F.body(TN + "::create"), F.body(TN + "::is_valid"),
               F.one_body(r"^<selium_protocol::topic_name::TopicName as core::fmt::Display>::fmt$")]
     bodies += F.closures_of(bodies[0])
-    ngroups = 0
+    ngroups = 2 if top is None else 0
     if top is not None:
         ngroups = sum(1 for n in top.inner() if n[0] == literals.SUBPATTERN)
 
@@ -266,6 +266,15 @@ def d5(ctx, F):
 
 def run(ctx):
     F = ctx.facts("quick")
+    if ctx.tier == "thorough":
+        # --all-features turns on `__notopiccheck` (client-side reserved-prefix test compiled out by design) and `__cloud`;
+        # the grammar, the server-side validator and the panic-freedom rules must hold there as well
+        FF = ctx.facts("allfeatures")
+        d1(ctx, FF)
+        d3(ctx, FF, None)
+        iv = FF.body(TN + "::is_valid")
+        ctx.check(len(iv.calls_to("core::str::<impl str>::starts_with")) == 1, "C07.D2.reserved-is_valid[all-features]", "is_valid:reserved-test-missing[all-features]",
+                  "is_valid (the server-side rule) still tests the reserved namespace with --all-features", iv.span)
     top = d1(ctx, F)
     d2(ctx, F)
     d3(ctx, F, top)
